@@ -290,8 +290,8 @@ REPLAY_TMPL = ("cat > /tmp/c08-replay.scm <<'EOF'\n(import (rename (chibi) (writ
 
 def run(ctx):
     quick = not ctx.thorough
-    n_trees = 6000 if quick else 60000
-    n_floats = 6000 if quick else 200000
+    n_trees = 6000 if quick else 40000
+    n_floats = 6000 if quick else 100000
     n_chars = 600 if quick else 0          # thorough: every scalar value
     ctx.cov["rule"] = ("data trees (depth <= 6) over symbols from an alphabet biased to + - . # | \\ ' ` , @ digits e i n a f and number-like prefixes, "
                        "strings/chars at every UTF-8 width boundary and every escape class, fixnum/bignum boundary integers, doubles (boundary seeds, widened "
@@ -338,8 +338,8 @@ def run(ctx):
         for c in list(range(0, 0xD800)) + list(range(0xE000, 0x110000)):
             data.append(('C', c))
     check_trees(ctx, d, exe, data)
-    check_graphs(ctx, d, 400 if quick else 20000)
-    check_texts(ctx, d, exe, data, 3000 if quick else 100000)
+    check_graphs(ctx, d, 400 if quick else 10000)
+    check_texts(ctx, d, exe, data, 3000 if quick else 15000)
     ctx.assume("libc snprintf(\"%.<p>lg\")/sscanf(\"%lg\")/strtod are correct (hypotheses of flonum_roundtrip_given; the model driver uses the same libc through OCaml)")
     ctx.assume("C locale (LC_NUMERIC); the writer's locale patching (sexp.c:2265-2280) is outside the model")
     ctx.assume("nesting depth below SEXP_DEFAULT_WRITE_BOUND (10000); ports/buffering, fold-case mode and non-default feature flags are outside the model")
